@@ -115,7 +115,14 @@ func (m *MonC15) OnStepEnd(w *World, step int) {
 				if released[name] {
 					continue
 				}
-				if nv, ok := post[k]; !ok || (nv != v && !sameJSONText(nv, v)) {
+				nv, ok := post[k]
+				if !ok && !m.heldByAClient(w, k) {
+					// a query resource without subscribers is unregistered at once: the
+					// answer released the last waiting get request
+					m.class("loaded_resource_left_with_its_last_subscriber")
+					continue
+				}
+				if !ok || (nv != v && !sameJSONText(nv, v)) {
 					m.violate(w, "loaded_resource_hit_by_malformed_get_answer", "the malformed get answer %q changed or dropped the loaded %s (was %s, now %s)", trunc(op.P, 120), k, trunc(v, 150), trunc(nv, 150))
 					break
 				}
@@ -173,6 +180,36 @@ cache:
 			}
 		}
 	}
+}
+
+// heldByAClient reports whether some open client holds a resource id of the
+// cached resource key (name?normalisedQuery).
+func (m *MonC15) heldByAClient(w *World, key string) bool {
+	name, norm := splitRID(key)
+	d := w.Svc.defFor(name, w.CIDs())
+	for _, c := range w.Clients {
+		if !c.Dialed || c.EOF || c.Closed {
+			continue
+		}
+		for rid, r := range c.Ref.Held {
+			if r.Type == 'e' {
+				continue
+			}
+			n, q := splitRID(strings.Replace(rid, "{cid}", c.CID, -1))
+			if n != name {
+				continue
+			}
+			if d != nil {
+				if nq, ok := d.Norm(q); ok {
+					q = nq
+				}
+			}
+			if q == norm {
+				return true
+			}
+		}
+	}
+	return false
 }
 
 func sameJSONText(a, b string) bool {
